@@ -2,7 +2,7 @@
 
 Built on gen/scenario.py (exact grid: --freq 512, integer / dyadic microsecond times) and extended
 with what the statements quantify over: host slices as X and as adjacent B/E pairs, ties, nesting,
-partial overlaps up to the five-extra-lane budget, zero and negative durations (documented
+partial overlaps up to the five-extra-lane budget, back-to-back chains (start == previous end), zero and negative durations (documented
 removal), very short device slices (1/16 us), sub-nanosecond host slices (2^-12 us), names hit by --drop_globals, metadata events,
 user-supplied argument keys (in attr/args and as an unknown top-level key), counter epochs near the
 2^32 wrap.  Every input slice carries a unique `uid`.
@@ -127,6 +127,12 @@ def build(spec):
             host("zero_dur", 503, 400.0, 400.0)
             host("neg_dur", 503, 410.0, 409.0)
             host("zero_dur_x", 503, 420.0, 420.0, x_form=True)
+        # back-to-back chain on one lane: each slice starts exactly where the previous one ends (no overlap at all)
+        if spec.get("chain", True):
+            t0 = 460.0
+            for k, d in enumerate([2.0, 3.0, 0.5, 4.0]):
+                host(f"chain_{k}", 505, t0, t0 + d, x_form=(k == 2))
+                t0 += d
         if spec.get("sub_ns"):
             host("tick_be_quarter_ns", 504, 440.0, 440.0 + 2.0 ** -12)
             host("tick_be_half_ns", 504, 445.0, 445.0 + 2.0 ** -11)
